@@ -1,7 +1,15 @@
 #!/bin/sh
-# Re-run every stored seeded change against the quick check of its property (scratch worktrees, nothing stored).
+# Re-run stored seeded changes against the quick check that is recorded as catching them (scratch worktrees, nothing
+# stored).  Usage: seeded_regress.sh [name-regex]      e.g.  seeded_regress.sh '^(C07|R4)'
 cd "$(dirname "$0")"
+PAT=${1:-.}
 for d in seeded/*/; do
-  n=$(basename $d); p=${n%%-*}
+  n=$(basename $d)
+  echo "$n" | grep -Eq "$PAT" || continue
+  p=$(/venv/bin/python -c "
+import json,sys
+m=json.load(open('$d/meta.json'))
+c=m.get('confirmation') or {}
+print(','.join(c.get('detected_by') or c.get('properties') or [str(m.get('property')).split()[0]]))")
   /venv/bin/python seeded_eval.py $d $n $p --no-store 2>&1 | head -1 | cut -c1-200
 done
